@@ -14,7 +14,7 @@
 (*   item   [t |-> "rule", sel, decls, id]                                 *)
 (*          [t |-> "at", name, pre, kind, body, id]  kind: "rules"|"decls" *)
 (*                                   |"keyframes"|"stmt"                   *)
-(*          [t |-> "import", form, path, layer, supports, media, id]       *)
+(*          [t |-> "import", form, path, layer, sub, supports, media, id]  *)
 (*   decl   [p, v |-> Seq(token), id]                                      *)
 (* Output: two flat token sequences (normal, low priority); each token     *)
 (*   [k, v, gap, prov, name]  gap: "req" whitespace must separate it from  *)
@@ -117,6 +117,11 @@ IsHostOnly(sel) == Len(sel) = 2 /\ sel[1].k = "colon" /\ sel[2].k = "ident" /\ s
 StartsWithHost(sel) == Len(sel) >= 2 /\ sel[1].k = "colon" /\ ~sel[2].w
                        /\ ((sel[2].k = "ident" /\ sel[2].v \in HostNames) \/ (sel[2].k = "func" /\ sel[2].v \in HostNames))
 
+(* `:host` further on in the selector list (`.a :host`, `.a, :host`) is a combination too; `::host` is not the pseudo-class *)
+HostLater(sel) == \E i \in 2..(Len(sel) - 1) :
+                     /\ sel[i].k = "colon" /\ sel[i - 1].k # "colon" /\ ~sel[i + 1].w
+                     /\ sel[i + 1].k \in {"ident", "func"} /\ sel[i + 1].v \in HostNames
+
 Open(id)  == Out([k |-> "{"], "free", id)
 Close(id) == Out([k |-> "}"], "free", id)
 
@@ -134,14 +139,20 @@ RECURSIVE Items(_, _, _, _), Keyframes(_, _, _)
 Both(n, l, w) == [normal |-> n, low |-> l, warn |-> w]
 Cat(a, b) == [normal |-> a.normal \o b.normal, low |-> a.low \o b.low, warn |-> a.warn \o b.warn]
 
+(* keywords and function names of an import are ASCII case-insensitive; the form "STRING" spells them in capitals
+   (`@IMPORT "a" LAYER(x) SUPPORTS(..)`), and the output keeps the spelling *)
+KW(it, w) == IF it.form = "STRING" THEN (CASE w = "layer" -> "LAYER" [] w = "supports" -> "SUPPORTS" [] w = "import" -> "IMPORT" [] OTHER -> w) ELSE w
+(* a layer name may be dotted (`a.b`: the sub-layer b of a) - it is a name, not a selector: never prefixed *)
+LayerName(it, id) == <<Out([k |-> "ident", v |-> it.layer], "free", id)>>
+                     \o (IF it.sub = "" THEN <<>> ELSE <<Out([k |-> "delim", v |-> "."], "free", id), Out([k |-> "ident", v |-> it.sub], "forbid", id)>>)
 ImportOut(it, o) ==
     LET id == it.id
         layer == IF it.layer = "none" THEN <<>>
-                 ELSE <<Out([k |-> "at", v |-> "layer"], "free", id)>>
-                      \o (IF it.layer = "" THEN <<>> ELSE <<Out([k |-> "ident", v |-> it.layer], "free", id)>>)
+                 ELSE <<Out([k |-> "at", v |-> KW(it, "layer")], "free", id)>>
+                      \o (IF it.layer = "" THEN <<>> ELSE LayerName(it, id))
                       \o <<Open(id)>>
         supp  == IF it.supports = <<>> THEN <<>>
-                 ELSE <<Out([k |-> "at", v |-> "supports"], "free", id), Out([k |-> "("], "free", id)>>
+                 ELSE <<Out([k |-> "at", v |-> KW(it, "supports")], "free", id), Out([k |-> "("], "free", id)>>
                       \o SelToks(it.supports, 1, o, 1) \o <<Out([k |-> ")"], "free", id), Open(id)>>
         media == IF it.media = <<>> THEN <<>>
                  ELSE <<Out([k |-> "at", v |-> "media"], "free", id)>> \o PreToks(it.media, 1, o) \o <<Open(id)>>
@@ -151,13 +162,13 @@ ImportOut(it, o) ==
        \o [i \in 1..n |-> Close(id)]
 
 ImportPlain(it, o) ==      \* no import sign: the rule passes through
-    <<Out([k |-> "at", v |-> IF it.form = "STRING" THEN "IMPORT" ELSE "import"], "free", it.id),
+    <<Out([k |-> "at", v |-> KW(it, "import")], "free", it.id),
       Out([k |-> IF it.form = "url" THEN "url" ELSE "string", v |-> it.path], "free", it.id)>>
     \o (IF it.layer = "none" THEN <<>>
-        ELSE IF it.layer = "" THEN <<Out([k |-> "ident", v |-> "layer"], "free", it.id)>>
-        ELSE <<Out([k |-> "func", v |-> "layer"], "free", it.id), Out([k |-> "ident", v |-> it.layer], "free", it.id), Out([k |-> ")"], "free", it.id)>>)
+        ELSE IF it.layer = "" THEN <<Out([k |-> "ident", v |-> KW(it, "layer")], "free", it.id)>>
+        ELSE <<Out([k |-> "func", v |-> KW(it, "layer")], "free", it.id)>> \o LayerName(it, it.id) \o <<Out([k |-> ")"], "free", it.id)>>)
     \o (IF it.supports = <<>> THEN <<>>
-        ELSE <<Out([k |-> "func", v |-> "supports"], "free", it.id)>> \o SelToks(it.supports, 1, o, 1) \o <<Out([k |-> ")"], "free", it.id)>>)
+        ELSE <<Out([k |-> "func", v |-> KW(it, "supports")], "free", it.id)>> \o SelToks(it.supports, 1, o, 1) \o <<Out([k |-> ")"], "free", it.id)>>)
     \o PreToks(it.media, 1, o)
     \o <<Out([k |-> "semi", v |-> ""], "free", it.id)>>
 
@@ -172,7 +183,7 @@ Item(it, o, chain, first) ==
                       \o <<Open(it.id)>> \o Decls(it.decls, 1, o) \o <<Close(it.id)>>
                       \o WrapClose(chain, 1),
                       <<>>)
-            ELSE IF o.host /\ StartsWithHost(it.sel)
+            ELSE IF o.host /\ (StartsWithHost(it.sel) \/ HostLater(it.sel))
             THEN Both(<<>>, <<>>, <<[kind |-> "HostSelectorCombination", id |-> it.id]>>)
             ELSE Both(SelToks(it.sel, 1, o, 0) \o <<Open(it.id)>> \o Decls(it.decls, 1, o) \o <<Close(it.id)>>, <<>>, <<>>)
       [] it.t = "at" ->
